@@ -278,3 +278,35 @@ Theorem C19_tstrcmp_reg_antisymmetric : forall rd s1 s2, 0 <= rd s1 -> 0 <= rd s
   tstrcmp_reg rd s2 s1 = enc (CompOpp (lex (chars rd s1) (chars rd s2))).
 Proof. exact tstrcmp_reg_antisymmetric. Qed.
 Print Assumptions C19_tstrcmp_reg_antisymmetric.
+
+(* ---- the stack-convention tstrcmp: HERA assembly with a loop and two early exits ------------------------------ *)
+From Hera.Proofs Require Import C19_StrcmpStack.
+
+(* placed at any address, with the carry-block flag on (the library's convention), for EVERY pair of strings whose
+   lengths and characters are below 2^15 and which lie outside the frame FP..FP+10 (no bound on the lengths: the loop
+   is handled by induction): the result cell FP+3 receives a word whose sign is the lexicographic comparison of the
+   two character lists (0 exactly for equal strings, negative when the first is smaller, a proper prefix included);
+   control returns to PC_ret, FP and SP are restored, R1..R10 come back unchanged and nothing outside the frame is
+   written *)
+Theorem C19_tstrcmp_stack_contract : forall base s,
+  0 <= base -> base + 68 < 65536 -> List.length (regs s) = 16%nat -> pc s = base -> getreg s 0 = 0 ->
+  flag (f_cb s) = true ->
+  word (getreg s 1) -> word (getreg s 2) -> word (getreg s 3) -> word (getreg s 4) -> word (getreg s 5) -> word (getreg s 6) ->
+  word (getreg s 12) -> word (getreg s 13) -> word (getreg s 15) -> wf_mem (mem s) ->
+  let f := getreg s 14 in let rd := mem_read (mem s) in let pa := rd (f + 3) in let pb := rd (f + 4) in
+  0 <= f -> f + 10 < 65536 -> 0 <= rd pa < 32768 -> 0 <= rd pb < 32768 ->
+  (pa + rd pa < f \/ f + 10 < pa) -> (pb + rd pb < f \/ f + 10 < pb) -> pa + rd pa + 1 < 65536 -> pb + rd pb + 1 < 65536 ->
+  (forall j, 0 <= j < rd pa -> rd (pa + j + 1) < 32768) -> (forall j, 0 <= j < rd pb -> rd (pb + j + 1) < 32768) ->
+  exists n s', run_at base (tstrcmp_stack_code base) n s = Some s' /\
+    sign_of (mem_read (mem s') (f + 3)) = lex (chars rd pa) (chars rd pb) /\
+    pc s' = getreg s 13 /\ getreg s' 14 = getreg s 12 /\ getreg s' 15 = getreg s 15 /\
+    (forall j, 1 <= j <= 10 -> getreg s' j = getreg s j) /\
+    (forall b, 0 <= b < 65536 -> ~ (f <= b <= f + 10) -> mem_read (mem s') b = mem_read (mem s) b).
+Proof. exact tstrcmp_stack_contract. Qed.
+Print Assumptions C19_tstrcmp_stack_contract.
+
+(* the value itself: -1 / 1 from the first differing character, else the difference of the lengths *)
+Theorem C19_strcmp_result_sign : forall rd pa pb, 0 <= rd pa < 32768 -> 0 <= rd pb < 32768 ->
+  sign_of (strcmp_result rd pa pb) = lex (chars rd pa) (chars rd pb).
+Proof. exact strcmp_result_sign. Qed.
+Print Assumptions C19_strcmp_result_sign.
